@@ -517,6 +517,46 @@ def rule_R5(ck):
     ck.instance(("extern-all-route",), {"exported after compiling [early:, .extern all, late:, latec = 5]": repr(ps[0].value)[:160]}, fn=where)
     if len(ps) != 1 or ps[0].kind != "return":
         return ck.incomplete(where, "compile_file on [early:, .extern all, late:, latec = 5]", ps)
+    # '.extern all' concerns the file it is written in: an included file's '.extern all' does not export what the includer defines
+    # after the '.include', and the includer's '.extern all' still holds after an included file has been compiled
+    for who in ("included", "includer"):
+        def thunk_inc(who=who):
+            T = lambda n_: I.module_get("types", n_)
+            sh = Shapes(I)
+            comp = I.instantiate(I.module_get("compiler", "Compiler"), [], {})
+            ext = lambda: sh.mk(T("Instruction"), None, None, sh.symbol(".extern"), [sh.symbol("all")])
+            inner = [sh.mk(T("Label"), None, None, "incl", False)]
+            if who == "included":
+                inner.insert(0, ext())
+            inc_file = Rec(ClassVal("FileStub"))
+            inc_file.fields.update(filename="inc.mac", body=sh.mk(T("CodeBlock"), None, None, inner))
+            I.summaries["parser::parse"] = lambda I_, fn_, a, k: inc_file
+            I.summaries["devices::resolve_relative_path"] = lambda I_, fn_, a, k: "inc.mac"
+            q_ = sh.mk(T("QuotedString"), None, None, '"', "inc.mac")
+            outer = [sh.mk(T("Label"), None, None, "early", False)]
+            if who == "includer":
+                outer.append(ext())
+            outer += [sh.mk(T("Instruction"), None, None, sh.symbol(".include"), [q_]), sh.mk(T("Label"), None, None, "after", False)]
+            f = Rec(ClassVal("FileStub"))
+            f.fields.update(filename="a.mac", body=sh.mk(T("CodeBlock"), None, None, outer))
+            try:
+                I.call_method(comp, "compile_file", [f, 0o1000, {"promise": None, "set_where": None}])
+            finally:
+                I.summaries.pop("parser::parse", None)
+                I.summaries.pop("devices::resolve_relative_path", None)
+            return sorted(k for k in _table(comp.fields["extern_symbols_mapping"]) if isinstance(k, str))
+        try:
+            pi = I.explore(thunk_inc)
+        except Unsupported as ex:
+            ck.unknown(f"'.extern all' across an include ({who}): {ex}")
+            continue
+        want = ["incl"] if who == "included" else ["after", "early"]
+        ck.instance(("extern-all-include", who), {"'.extern all' written in the": who + " file", "exported": repr(pi[0].value) if pi and pi[0].kind == "return" else repr(pi)}, fn=where)
+        if len(pi) != 1 or pi[0].kind != "return":
+            ck.incomplete(where, f"a file that includes another, '.extern all' in the {who} file", pi)
+        elif pi[0].value != want:
+            ck.violation(where, f"'early: / {'.extern all / ' if who == 'includer' else ''}.include \"inc.mac\" / after:' with inc.mac = '{'.extern all / ' if who == 'included' else ''}incl:' exports {pi[0].value}, expected {want}: "
+                                "'.extern all' concerns the definitions of the file it is written in, before and after it, and no other file's", construct="extern all across an include")
     if "1" in ps[0].value:
         ck.violation("compiler::Compiler.compile_label", f"a file 'early: / .extern all / late: / 1: / latec = 5' exports {ps[0].value}: the local label '1' belongs to the scope between two ordinary labels "
                                                           "and is never visible to other files, '.extern all' or not", construct="extern all exports a local label")
